@@ -67,11 +67,13 @@ def seq_of_arg(ev, i=0):
 def hyphen_term(o, base):
     """payload term of find(base, '-') on this path, if any"""
     for ev in o.events:
-        if ev["k"] == "call" and ev.get("result") is not None and isinstance(ev["result"], tuple) \
-                and ev["result"][0] == "found" and ev["result"][1] == base:
-            needle = ev["result"][2]
+        if ev["k"] != "call":
+            continue
+        f = ev.get("found") if ev.get("found") is not None else ev.get("result")
+        if isinstance(f, tuple) and f and f[0] == "found" and f[1] == base:
+            needle = f[2]
             if needle == const(45):
-                return ("payload", ev["result"], "Some", "0")
+                return ("payload", f, "Some", "0")
     return None
 
 
@@ -107,10 +109,10 @@ def classify_iteration(ctx, o, Lterm):
         nums[role] = {"term": valterm, "ok": ok, "ev": ev, "base": base, "h": h}
     # digit checks that *failed* are parse attempts too (the integer parser is never reached)
     for ev in o.events:
-        if ev["k"] != "call" or not ev["callee"].get("path", "").endswith("Iterator::all"):
+        if ev["k"] != "call":
             continue
-        r = ev.get("result")
-        if r is None or o.cons.known.get(r) != 0:
+        from .common import all_digits_guard
+        if all_digits_guard(ctx, o, ev) != "fail":
             continue
         it = ev["snap"][0] if ev["args"][0][0] == "ref" else ev["args"][0]
         sl = find_slice(it)
